@@ -60,7 +60,7 @@ def run_dw(case):
     if len(allfn) > 60:      # keep the per-point cost of the Python integrand bounded
         allfn = [allfn[i] for i in sorted(rng.choice(len(allfn), size=60, replace=False))]
     coefs = rng.normal(size=len(allfn))
-    g = drive.fit_to_box(drive.driver_function(dim, case["fseed"]), case["a"], case["b"])
+    g = drive.case_function(case, dim=dim)
     comps = [g] + [(lambda x, fn=fn: oracles.basis_eval(fn, a, b, x)) for fn in sel]
     comps.append(lambda x: sum(c * oracles.basis_eval(fn, a, b, x) for c, fn in zip(coefs, allfn)))
     exact = [oracles.basis_integral(fn, a, b) for fn in sel] + [sum(c * oracles.basis_integral(fn, a, b) for c, fn in zip(coefs, allfn))]
@@ -115,6 +115,7 @@ def run_dw(case):
             st_["strict"] += 1
 
     drive.run_history(sa, case, on_eval=on_eval, before_refine=before_refine, after_refine=after_refine)
+    out.cls(drive.scale_class(case))
     out.nontrivial = bool(st_["strict"] and st_["raised"])
     out.cls("version=%d" % case["version"], "rebalancing=%s" % case["rebalancing"], "boundary=%s" % boundary)
     if st_["strict"]:
@@ -132,7 +133,7 @@ def run_dw_modified(case):
     dim = case["dim"]
     a, b = np.array(case["a"]), np.array(case["b"])
     rng = np.random.default_rng(case["fseed"])
-    g = drive.fit_to_box(drive.driver_function(dim, case["fseed"]), case["a"], case["b"])
+    g = drive.case_function(case, dim=dim)
     cs = rng.normal(size=(3, dim + 1))
     comps = [g] + [(lambda x, c=c: float(c[0] + np.dot(c[1:], x))) for c in cs]
     vol = float(np.prod(b - a))
@@ -190,6 +191,7 @@ def run_dw_modified(case):
             raise
         out.cls("modified-weights-cancellation-exceeds-library-assert(counted)")
         out.info["max_modified_weight_amplification"] = amp
+    out.cls(drive.scale_class(case))
     out.nontrivial = bool(st_["strict"])
     out.cls("estimator=%s" % case.get("estimator", "tape"), "version=%d" % case["version"])
     out.info = dict(out.info, max_steps=st_["steps"])
@@ -207,7 +209,7 @@ def run_es(case):
     a, b = case["a"], case["b"]
     rng = np.random.default_rng(case["fseed"])
     cs = rng.normal(size=(2, 2 ** dim))
-    g = drive.fit_to_box(drive.driver_function(dim, case["fseed"]), case["a"], case["b"])
+    g = drive.case_function(case, dim=dim)
     comps = [g] + [oracles.multilinear(c, dim) for c in cs]
     exact = np.array([oracles.multilinear_integral(c, a, b) for c in cs])
     m = max(1.0, max(abs(x) for x in a + b))
@@ -234,6 +236,7 @@ def run_es(case):
         st_["extends"] += ext
 
     drive.run_history(sa, case, on_eval=on_eval, before_refine=before_refine, after_refine=after_refine)
+    out.cls(drive.scale_class(case))
     out.nontrivial = bool(st_["extends"] and st_["splits_after_extend"])
     out.cls("version=%d" % case["version"], "estimator=%s" % case["estimator"])
     if st_["extends"]:
@@ -255,7 +258,7 @@ def run_cell(case):
     a, b = case["a"], case["b"]
     rng = np.random.default_rng(case["fseed"])
     cs = rng.normal(size=(2, 2 ** dim))
-    g = drive.fit_to_box(drive.driver_function(dim, case["fseed"]), case["a"], case["b"])
+    g = drive.case_function(case, dim=dim)
     comps = [g] + [oracles.multilinear(c, dim) for c in cs]
     exact = np.array([oracles.multilinear_integral(c, a, b) for c in cs])
     m = max(1.0, max(abs(x) for x in a + b))
@@ -315,6 +318,7 @@ def run_cell(case):
             sa.performSpatiallyAdaptiv(case["lmin"], case["lmin"], drive_err, tol=-1, max_evaluations=10 ** 9, print_output=False)
     except drive.StopHistory:
         pass
+    out.cls(drive.scale_class(case))
     out.nontrivial = st_["steps"] >= 2 and st_["strict"] >= 1
     out.cls("lmin=%d" % case["lmin"], "estimator=%s" % case2["estimator"], "d=%d" % dim)
     out.info = dict(max_steps=st_["steps"], max_cells=len(sa.refinement.get_objects()))
@@ -327,16 +331,17 @@ def cell_strategy(tier):
         dim = draw(st.integers(2, 3))
         a, b = drive.st_box(draw, dim)
         tape, mode = drive.st_tape(draw)
-        return dict(kind="cell", dim=dim, a=a, b=b, lmin=draw(st.integers(1, 2)), estimator=draw(st.sampled_from(["tape", "tape", "library"])),
-                    tape=tape, mode=mode, maxsteps=draw(st.sampled_from([2, 3, 5, 8, 12, 16, 25])), maxev=draw(st.integers(60, 400)),
-                    fseed=draw(st.integers(0, 10 ** 6)))
+        c = dict(kind="cell", dim=dim, a=a, b=b, lmin=draw(st.integers(1, 2)), estimator=draw(st.sampled_from(["tape", "tape", "library"])),
+                 tape=tape, mode=mode, maxsteps=draw(st.sampled_from([2, 3, 5, 8, 12, 16, 25])), maxev=draw(st.integers(60, 400)),
+                 fseed=draw(st.integers(0, 10 ** 6)))
+        return drive.apply_boxscale(c, drive.st_boxscale(draw, dim))
     return s()
 
 
 def dw_strategy(tier):
     @st.composite
     def s(draw):
-        c = draw(drive.st_dw_case(tier=tier))
+        c = draw(drive.st_dw_case(tier=tier, scales=True))
         if draw(st.integers(0, 5)) == 0:
             # start configuration with lmin == lmax (a single full grid): the initial space is the full-grid space
             c["lmin"] = c["lmax"] = draw(st.sampled_from([2, 2, 3]))
@@ -347,14 +352,14 @@ def dw_strategy(tier):
 def dwm_strategy(tier):
     @st.composite
     def s(draw):
-        c = draw(drive.st_dw_case(tier=tier))
+        c = draw(drive.st_dw_case(tier=tier, scales=True))
         c["estimator"] = draw(st.sampled_from(["tape", "tape", "library"]))
         return c
     return s()
 
 
 def es_strategy(tier):
-    return drive.st_es_case(tier=tier, boundary_choices=(True,))
+    return drive.st_es_case(tier=tier, boundary_choices=(True,), scales=True)
 
 
 def selftest():
